@@ -12,8 +12,14 @@ package parser
 
 //@ iface (n Node) Type() (t *Type)
 //@   trusted
+//@   ensures t != nil
 //@   modifies nothing
 
 //@ iface (n Node) String() (s string)
 //@   trusted
+//@   modifies nothing
+
+// Type.Equals compares two type descriptors structurally; it reads but never changes them.
+//@ func (t *Type) Equals(t2 *Type) (r bool)
+//@   noverify contract used by callers in package evaluator; the body is verified under C04
 //@   modifies nothing
